@@ -58,11 +58,15 @@ pub struct Profile {
     /// percent of runs with a large universe / prefilled cache
     pub large_pct: u32,
     pub large_prefill: u32,
+    /// one in `giant_div` of the large runs is a giant one (beyond 2^16 entries)
+    pub giant_div: u64,
+    /// one in `marathon_div` of the FIFO-churn runs starts with a marathon (see Config::marathon)
+    pub marathon_div: u64,
 }
 
 pub fn profile_for(prop: &str, thorough: bool) -> Profile {
     let mut w = BASE_WEIGHTS;
-    let mut p = Profile { weights: w, refuse_pct: 0, natural_oom: false, min_steps: 5, max_steps: 40, large_pct: 0, large_prefill: 0 };
+    let mut p = Profile { weights: w, refuse_pct: 0, natural_oom: false, min_steps: 5, max_steps: 40, large_pct: 0, large_prefill: 0, giant_div: if thorough { 400 } else { 25 }, marathon_div: if thorough { 1500 } else { 120 } };
     let mul = |w: &mut [u32; N_CAT], cats: &[usize], m: u32| {
         for &c in cats {
             w[c] = w[c].max(1) * m;
@@ -165,6 +169,7 @@ pub fn gen_config(rng: &mut Rng, prof: &Profile, overhead: usize) -> (Config, Ge
         7 => HashMode::SameH2,
         8 => HashMode::SameSlot,
         9 => HashMode::Ident,
+        10 => HashMode::Rekey,
         _ => HashMode::Good,
     };
     // colliding hashers make every probe linear in the number of entries: not for caches of thousands
@@ -271,7 +276,7 @@ pub fn gen_config(rng: &mut Rng, prof: &Profile, overhead: usize) -> (Config, Ge
         (universe, max_size, mode, steps, kheaps, vheaps, ctor)
     };
     // once in a few thousand runs: a cache beyond 2^16 entries (counters or budgets in a narrower type)
-    let giant = large && rng.chance(1, if prof.large_pct > 0 { 60 } else { 25 });
+    let giant = large && rng.chance(1, if prof.large_pct > 0 { prof.giant_div * 2 } else { prof.giant_div });
     let prefill = if !large {
         0
     } else if giant {
@@ -283,7 +288,9 @@ pub fn gen_config(rng: &mut Rng, prof: &Profile, overhead: usize) -> (Config, Ge
     };
     let steps = if giant { steps.min(24) } else { steps };
     let universe = if giant { prefill + 64 } else { universe };
-    let cfg = Config { ctor, mode, salt, max_size, universe, prefill, prefill_vh: vheaps[0] };
+    // once in a while a FIFO run is preceded by more than 2^20 unchecked churn operations
+    let marathon = if fifo && rng.chance(1, prof.marathon_div) { (1u32 << 20) + 40_000 + rng.below(30_000) as u32 } else { 0 };
+    let cfg = Config { ctor, mode, salt, max_size, universe, prefill, prefill_vh: vheaps[0], marathon };
     let fresh_pct = if fifo { 100 } else if churn { *rng.pick(&[0u32, 50, 90, 100]) } else { *rng.pick(&[0u32, 0, 0, 5, 30]) };
     let gs = GenState { kheaps, vheaps, weights, recent_gone: Vec::new(), two_caches, refuse_pct: prof.refuse_pct, natural_oom: prof.natural_oom, fresh_next: universe.max(1) + 1000, fresh_pct, fixed_sizes: fifo };
     (cfg, gs, steps)
@@ -544,7 +551,13 @@ pub fn gen_op(rng: &mut Rng, gs: &mut GenState, cfg: &Config, pres: &[Option<Obs
             OpKind::ShrinkTo { c }
         }
         CAT_SHRINK_FIT => OpKind::ShrinkToFit,
-        CAT_CLONE => OpKind::CloneTo,
+        CAT_CLONE => {
+            if rng.chance(1, 3) {
+                OpKind::CloneFrom
+            } else {
+                OpKind::CloneTo
+            }
+        }
         CAT_ITER_BORROW | CAT_DRAIN | CAT_ITER_OWNING => {
             let kind = match cat {
                 CAT_ITER_BORROW => *rng.pick(&[IterKind::Iter, IterKind::Keys, IterKind::Values]),
@@ -560,7 +573,16 @@ pub fn gen_op(rng: &mut Rng, gs: &mut GenState, cfg: &Config, pres: &[Option<Obs
                     _ => rng.bool(),
                 })
                 .collect();
-            OpKind::IterScript { kind, script, end: if rng.chance(1, 6) { EndMode::PanicDrop } else { EndMode::Drop } }
+            // now and then through the provided methods an implementation may override
+            let skips: Vec<u8> = if rng.chance(1, 4) { (0..len).map(|_| *rng.pick(&[0u8, 0, 0, 1, 2, 5])).collect() } else { Vec::new() };
+            let end = match rng.below(16) {
+                0..=1 => EndMode::PanicDrop,
+                2 => EndMode::Count,
+                3 => EndMode::Last,
+                4 => EndMode::Fold,
+                _ => EndMode::Drop,
+            };
+            OpKind::IterScript { kind, script, end, skips }
         }
         CAT_DEBUG => OpKind::DebugFmt,
         CAT_GETTERS => OpKind::Getters,
@@ -591,13 +613,13 @@ pub fn gen_teardown(rng: &mut Rng, pres: &[Option<Obs>; 2]) -> Vec<Op> {
             3 => {
                 let len = rng.usize_below(n.min(40) + 3);
                 let script = (0..len).map(|_| rng.bool()).collect();
-                ops.push(Op { target: t, kind: OpKind::IterScript { kind: IterKind::Drain, script, end: EndMode::Drop }, fuse: None });
+                ops.push(Op { target: t, kind: OpKind::IterScript { kind: IterKind::Drain, script, end: EndMode::Drop, skips: vec![] }, fuse: None });
             }
             4..=5 => {
                 let kind = *rng.pick(&[IterKind::IntoIter, IterKind::IntoKeys, IterKind::IntoValues]);
                 let len = rng.usize_below(n.min(40) + 3);
                 let script = (0..len).map(|_| rng.bool()).collect();
-                ops.push(Op { target: t, kind: OpKind::IterScript { kind, script, end: EndMode::Drop }, fuse: None });
+                ops.push(Op { target: t, kind: OpKind::IterScript { kind, script, end: EndMode::Drop, skips: vec![] }, fuse: None });
             }
             _ => ops.push(Op { target: t, kind: OpKind::DropCache, fuse: None }),
         }
